@@ -568,6 +568,23 @@ Proof.
   intros [] age; unfold go_janitor_deletes, spec_janitor_deletes, go_janitor_is_closing, c_state_after; split; reflexivity.
 Qed.
 
+(* ------------------------------------------------------------------------------------------ *)
+(* build-time limit override                                                                    *)
+(* ------------------------------------------------------------------------------------------ *)
+Lemma limit_override_agrees_proof : forall n m, go_rule_limit n = Some m -> limits_agree n m.
+Proof.
+  intros n m H. unfold go_rule_limit, go_init_steps in H. cbn [run_init] in H.
+  destruct (n mod 32 =? 0) eqn:E; [|discriminate]. injection H as <-. apply N.eqb_eq in E.
+  unfold limits_agree, c_rule_limit, go_bitmap_words, c_bitmap_words, c_lpm_slots, go_limit_bitmap_div, c_limit_bitmap_div, c_limit_lpm_add.
+  repeat split; lia.
+Qed.
+
+Lemma limit_override_rounding_refuted_proof :
+  exists n m, run_init [IRoundUp 31 32] n = Some m /\ ~ limits_agree n m.
+Proof.
+  exists 1000, 1024. split; [vm_compute; reflexivity|]. unfold limits_agree, c_rule_limit. intros [H _]. discriminate H.
+Qed.
+
 Lemma nonvacuous_proof :
   let f := mkflow (IP4 0x01020304) (IP4 0x0a060708) 40000 53 17 in
   flow_ok f /\ same_family f /\ go_repr (G6 (0xffff * 2 ^ 32 + 0x01020304)) (f_src f) /\ go_repr (G4 0x0a060708) (f_dst f)
